@@ -808,6 +808,40 @@ func (c *kase) opBackground(h *holder) {
 	c.count("op_background", 1)
 }
 
+// opMountUnmount: what fs.Mount / fs.Unmount do to a layer nobody else holds: Resolve,
+// Verify, start Prefetch and BackgroundFetch in goroutines, and Close (the evicting release
+// that closes the layer at once) while they are still running. Nothing is read; the point
+// is the release racing with fetch bodies that are inside the caches (clause 3).
+func (c *kase) opMountUnmount() {
+	var free []int
+	for li := 0; li < c.cfg.NLayers; li++ {
+		if len(c.holdersOf(li)) == 0 {
+			free = append(free, li)
+		}
+	}
+	if len(free) == 0 || len(c.hs) >= c.cfg.MaxHolders {
+		return
+	}
+	li := free[c.rng.Intn(len(free))]
+	l, err := c.w.Env.Resolve(bg, c.w.Img, li)
+	if err != nil {
+		c.violate("resolve-fails:registry-healthy", fmt.Sprintf("Resolve of layer %d failed although no request was being failed: %v", li, err))
+		return
+	}
+	h := c.addHolder(li, l)
+	if !c.opVerify(h) {
+		return
+	}
+	c.bgWG.Add(2)
+	c.bgMaybe = true
+	go func() { defer c.bgWG.Done(); _ = l.Prefetch(1 << 20) }()
+	go func() { defer c.bgWG.Done(); _ = l.BackgroundFetch() }()
+	pause(c.rng.Pick(0, 50, 300, 1000, 3000))
+	c.op("MountUnmount(L%d)", li)
+	c.count("op_mount_unmount", 1)
+	c.opRelease(h, true)
+}
+
 func (c *kase) opPrio() {
 	if c.prioOpen > 0 && c.rng.Bool() {
 		c.w.Env.TM.DonePrioritizedTask()
@@ -1092,8 +1126,10 @@ func (c *kase) runSeq() {
 			c.opCheck(h)
 		case x < 89:
 			c.opPrio()
-		case x < 92:
+		case x < 91:
 			c.opBackground(h)
+		case x < 93:
+			c.opMountUnmount()
 		case x < 98:
 			slots := c.cfg.MaxHolders - len(c.hs)
 			if slots < 2 {
@@ -1108,6 +1144,7 @@ func (c *kase) runSeq() {
 			break
 		}
 	}
+	c.opMountUnmount()
 	// every current holder reads once more before the end (oracle 1)
 	for _, hh := range append([]*holder(nil), c.hs...) {
 		c.opRead(hh, false)
